@@ -13,6 +13,7 @@ pub fn main() {
         "addrsort" => crate::addrsort::run(&args),
         "eyeballs" => crate::eyeballs::run(&args),
         "poollab" => crate::lab::scenarios::run(&args),
+        "poolstress" => crate::lab::stress::run(&args),
         "traffic" => crate::e2e::traffic::run(&args),
         "shutdown" => crate::e2e::shutdown::run(&args),
         "faults" => crate::e2e::faults::run(&args),
